@@ -42,7 +42,43 @@ def bootstrap():
     import controller.dispatcher  # noqa: F401
 
     runtime.patch_modules()
+    install_private_aliases()
     _installed = True
+
+
+def install_private_aliases():
+    """The harnesses and monitors reach a few private attributes of the controllers by their (mangled) names.  A rewrite that
+    renames a private attribute must not break them: the names used here are CANONICAL names, and what the attribute with that
+    role is called in the tree is found by translate/decisions.resolve_roles (the public setter the dispatcher calls, the
+    constructor parameter it stores, the call that creates it); an alias property maps the canonical name onto the actual one."""
+    import ast
+    import importlib
+
+    try:
+        from translate import decisions as _d
+    except Exception:  # noqa: BLE001
+        return
+    for modname, cls in (("controller.tank", "Tank"), ("controller.filtration", "Filtration"), ("controller.swim", "Swim"), ("controller.heating", "Heating")):
+        try:
+            mod = importlib.import_module(modname)
+            tree = ast.parse(open(os.path.join(REPO, *modname.split(".")) + ".py").read())
+            cdef = next(c for c in ast.walk(tree) if isinstance(c, ast.ClassDef) and c.name == cls)
+            ren = _d.resolve_roles(cdef, cls)
+        except Exception:  # noqa: BLE001
+            continue
+        klass = getattr(mod, cls)
+        for actual, canon in ren.items():
+            a, c = f"_{cls}{actual}", f"_{cls}{canon}"
+            if hasattr(klass, c):
+                continue
+
+            def _get(self, a=a):
+                return getattr(self, a)
+
+            def _set(self, v, a=a):
+                setattr(self, a, v)
+
+            setattr(klass, c, property(_get, _set))
 
 
 class Gpio:
